@@ -79,14 +79,32 @@ def main():
         try:
             ex0 = Exec(prog, stubs.make_stubs(), loop_bound=12)
             setups = [r for r in ex0.run(name('VerifHarness_C13_Setup')) if r.status == 'ok']
-            res, second = [], []
+            res, second, mid_bad = [], [], []
             for s0 in setups:
                 ex = Exec(prog, stubs.make_stubs(), loop_bound=12, max_paths=200000)
                 ex.skip_init = True
+                ex.snapshots = []
                 st = s0.state.clone()
                 st.events = []
                 r1 = ex.run(name('VerifHarness_C13_Invoke'), state=st)
                 res += r1
+                # an invocation that starts while another one is in mid-flight: from every distinct unlock point of the first
+                seen_mid = set()
+                for pos, snap in ex.snapshots:
+                    sig = (pos, tuple(sorted(set((ev[1], ev[2]) for ev in snap.events if ev[0] == 'shared_write'))))
+                    if sig in seen_mid or not sig[1] or len(seen_mid) >= 6:
+                        continue
+                    seen_mid.add(sig)
+                    ex3 = Exec(prog, stubs.make_stubs(), loop_bound=12, max_paths=200000)
+                    ex3.skip_init = True
+                    ex3.time_budget = 120
+                    st3 = snap.clone()
+                    st3.frames = []
+                    st3.events = []
+                    st3.pc = list(snap.pc)
+                    for r3 in ex3.run(name('VerifHarness_C13_Invoke'), state=st3):
+                        if r3.status == 'shared_recv' or (r3.status == 'panic' and 'deadlock' in str(r3.info)):
+                            mid_bad.append((pos, r3))
                 # distinct shared end-states in which the invocation changed or published shared state: a later invocation starts from them
                 sigs = {}
                 for r in r1:
@@ -161,8 +179,9 @@ def main():
         run.obligation('shared writes of one invocation: every one is ordered against every access of another invocation (%d candidate pairs, %d with a preceding invocation)' % (nq, n2), 'unsat' if not races else 'sat', 'unsat', 0.0)
         run.samples = run.extra['shared_accesses'][:6] or [{'note': 'no shared access'}]
         run.obligation('no invocation takes its result from a channel shared with the other invocations', 'unsat' if not xchan else 'sat', 'unsat', 0.0)
-        if (leaks or dead or xchan) and not races:
-            what = str(xchan[0].info) if xchan else ('a path of one invocation ends with blocking state %s still taken' % blocking(leaks[0].state)) if leaks else str(dead[0].info)
+        run.obligation('an invocation that starts while another is in mid-flight (after any of its unlocks) neither waits on nor takes its result from what the other one published', 'unsat' if not mid_bad else 'sat', 'unsat', 0.0)
+        if (leaks or dead or xchan or mid_bad) and not races:
+            what = ('started after the other invocation\'s unlock at %s: %s' % (mid_bad[0][0], mid_bad[0][1].info)) if mid_bad and not xchan else str(xchan[0].info) if xchan else ('a path of one invocation ends with blocking state %s still taken' % blocking(leaks[0].state)) if leaks else str(dead[0].info)
             try:
                 failed, panicked, out = driver.replay_native('server', 'server', ['c13_native.go', 'deploy_native.go'], 'VerifHarness_C13_Native', {}, timeout=900, race=True)
             except Exception as x:  # noqa
